@@ -12,11 +12,13 @@ import (
 	"flag"
 	"fmt"
 	"io"
+	"log"
 	"net"
 	"net/http"
 	"net/http/httptest"
 	"net/url"
 	"runtime"
+	"strconv"
 	"strings"
 	"time"
 
@@ -44,6 +46,20 @@ type tcase struct {
 
 var media = map[string]string{"json": "application/json", "ndjson": "application/x-ndjson", "any": "*/*", "other": "text/html",
 	"malformed": "application/;;json=", "jsonq": "application/json; q=0.9"}
+
+type answer struct {
+	Status int    `json:"status"`
+	Body   string `json:"body"`
+	N      int    `json:"n"`
+}
+
+type clientCase struct {
+	A   answer `json:"a"`
+	Out struct {
+		Err bool `json:"err"`
+		N   int  `json:"n"`
+	} `json:"out"`
+}
 
 func theMh() multihash.Multihash {
 	mh, _ := multihash.Sum([]byte("c19-key"), multihash.SHA2_256, -1)
@@ -160,6 +176,7 @@ func sameResult(a, b model.ProviderResult) bool {
 func Run(args []string) *rep.Report {
 	fs := flag.NewFlagSet("c19", flag.ExitOnError)
 	file := fs.String("cases", "", "ndjson case table exported by TLC")
+	clientCases := fs.String("client-cases", "", "ndjson table of server answers and client outcomes exported by TLC")
 	shard := fs.String("shard", "", "i/n (internal)")
 	procs := fs.Int("procs", runtime.NumCPU(), "worker processes")
 	fs.Parse(args)
@@ -337,6 +354,76 @@ func Run(args []string) *rep.Report {
 				}
 			}
 		}
+	}
+	// the real client against whatever a server answers (FindAPI.tla, Answers / ClientFind)
+	if *clientCases != "" && si == 0 {
+		var ans answer
+		stub := httptest.NewServer(http.HandlerFunc(func(w http.ResponseWriter, req *http.Request) {
+			doc, _ := model.MarshalFindResponse(&model.FindResponse{MultihashResults: []model.MultihashResult{{Multihash: theMh(), ProviderResults: results(ans.N, 1)}}})
+			if ans.N == 0 {
+				doc, _ = model.MarshalFindResponse(&model.FindResponse{})
+			}
+			w.Header().Set("Content-Type", "application/json")
+			switch ans.Body {
+			case "doc":
+				w.WriteHeader(ans.Status)
+				w.Write(doc)
+			case "cut-short": // the announced length is not delivered: the server closes the connection
+				w.Header().Set("Content-Length", strconv.Itoa(len(doc)))
+				w.WriteHeader(ans.Status)
+				w.Write(doc[:len(doc)/2])
+			case "cut-chunked": // a chunked response aborted part-way
+				w.WriteHeader(ans.Status)
+				w.Write(doc[:len(doc)/2])
+				w.(http.Flusher).Flush()
+				panic(http.ErrAbortHandler)
+			case "empty":
+				w.WriteHeader(ans.Status)
+			case "garbage":
+				w.WriteHeader(ans.Status)
+				w.Write([]byte("<html>not json</html>"))
+			case "empty-object":
+				w.WriteHeader(ans.Status)
+				w.Write([]byte("{}"))
+			}
+		}))
+		stub.Config.ErrorLog = log.New(io.Discard, "", 0)
+		scl, err := client.New(stub.URL)
+		if err != nil {
+			r.SetExtra("read_error", err.Error())
+		} else {
+			err = rep.ReadNDJSON(*clientCases, func(line []byte) error {
+				cc := new(clientCase)
+				if err := json.Unmarshal(line, cc); err != nil {
+					return err
+				}
+				ans = cc.A
+				r.Eval(cc.A.Body != "doc" || cc.A.Status != 200)
+				fr, ferr := scl.Find(context.Background(), theMh())
+				clientFinds++
+				got := 0
+				if ferr == nil && fr != nil {
+					for _, mr := range fr.MultihashResults {
+						got += len(mr.ProviderResults)
+					}
+				}
+				switch {
+				case (ferr != nil) != cc.Out.Err:
+					k := "client-error-for-answer"
+					if ferr == nil {
+						k = "client-no-error-for-failed-answer"
+					}
+					r.Diverge(rep.Divergence{Key: k, Case: cc, Detail: fmt.Sprintf("client: %d results, error %v", got, ferr)})
+				case ferr == nil && got != cc.Out.N:
+					r.Diverge(rep.Divergence{Key: "client-results", Case: cc, Detail: fmt.Sprintf("client: %d results", got)})
+				}
+				return nil
+			})
+			if err != nil {
+				r.SetExtra("read_error", err.Error())
+			}
+		}
+		stub.Close()
 	}
 	// API errors keep status and message through encode / decode -- also an error that has only a status (what the writer returns
 	// for an empty result set) and one wrapped by the caller
